@@ -161,6 +161,7 @@ def summarise(F, D, adt, d, covered, entry_of):
     I = Interp(F)
     inp = input_slice()
     outs = I.run(d, [inp])
+    I.n_parse_obligations = len(I.obligations)      # what the parser itself does (the methods explored below are C01's)
     I.call_hook = opaque_parse_hook(F, {k: v for k, v in entry_of.items() if v != adt and k != d})
     H = Header(inp)
     oks = []
@@ -211,6 +212,8 @@ def run(ctx, res):
         d = D.impl_item(PARSER_TRAIT, adt, "parse")
         try:
             I, inp, H, outs, oks = summarise(F, D, adt, d, covered, entry_of)
+            from ..core import arithmetic
+            arithmetic(res, I, d, upto=I.n_parse_obligations)
         except Unmodelled as ex:
             res.unmodelled(d, str(ex))
             continue
